@@ -130,6 +130,9 @@ class PVLEncoder(object):
         # Finally, let's keep track of everything we consider "numerical":
         self.numeric_types = (int, float, self.decoder.real_cls, Decimal)
 
+        # What pvl.load() and pvl.loads() decode with by default:
+        self._omni_decoder = OmniDecoder()
+
     def _import_quantities(self):
         warn_str = (
             "The {} library is not present, so {} objects will "
@@ -496,12 +499,18 @@ class PVLEncoder(object):
         something else (a keyword like NULL, TRUE or End_Group in any
         letter case, a number, a date, ...) or would not be a value at all.
         """
-        try:
-            value = self.decoder.decode_simple_value(s)
-        except ValueError:
-            return False
+        # The permissive default loader also has to read it back as the
+        # same string (it knows a few more forms, e.g. zone offsets).
+        for decoder in (self.decoder, self._omni_decoder):
+            try:
+                value = decoder.decode_simple_value(s)
+            except ValueError:
+                return False
 
-        return isinstance(value, str) and value == s
+            if not (isinstance(value, str) and value == s):
+                return False
+
+        return True
 
     def encode_string(self, value) -> str:
         """Returns a ``str`` formatted as a PVL String based
